@@ -41,6 +41,10 @@ N = dict(
     sf_dtor='^' + SF_RX + r'::~shared_future\(\)$',
     sf_shift='^' + SF_RX + '& ' + SF_RX + r'::operator<< <c17_future_fn&>\(c17_future_fn&\)$',
     fut_wait=r'^cocls::future<int>::wait\(\)$',
+    fut_force_wait=r'^cocls::future<int>::force_wait\(\)$', fut_sync=r'^cocls::future<int>::sync\(\) const$', fut_force_sync=r'^cocls::future<int>::force_sync\(\) const$',
+    sf_force_wait='^' + SF_RX + r'::force_wait\(\)$', sf_join='^' + SF_RX + r'::join\(\)$', sf_sync='^' + SF_RX + r'::sync\(\)$', sf_force_sync='^' + SF_RX + r'::force_sync\(\)$',
+    sf_set_exception='^' + SF_RX + r'::set_exception\(std::__exception_ptr::exception_ptr\)$', sf_set_value='^' + SF_RX + ' ' + SF_RX + r'::set_value<int&>\(int&\)$',
+    sf_as_future='^' + SF_RX + r'::operator cocls::future<int>&\(\)$', sp_star=r'^std::__shared_ptr_access<' + FI_RX + r', \(__gnu_cxx::_Lock_policy\)2, false, false>::operator\*\(\) const$',
     spbool_dtor=r'^cocls::suspend_point<bool>::~suspend_point\(\)$',
 )
 BOUNDARY = [r'^std::__shared_count<', r'^std::__shared_ptr_access<.*>::operator(->|\*)\(\) const$', N['aw_subscribe'], N['promise_dtor']]
@@ -49,7 +53,7 @@ DEFINES = ['CV_SP_POINTEE FI', 'CV_SP_DISPOSE fi_dtor']
 ACCESS_T = {'SPFI_ACCESS': 'std::__shared_ptr_access<%s, %s, false, false>' % (FIQ, POL)}
 MAKE_T = {'ALLOCV': 'std::allocator<void>'}
 
-ABSTRACT = ('sp_arrow', 'sp_make_default', 'sp_make_pfn', 'aw_subscribe', 'promise_dtor', 'env_promise_fn', 'env_future_fn', 'promise_set_exc', 'spbool_dtor', 'fut_wait')
+ABSTRACT = ('sp_arrow', 'sp_make_default', 'sp_make_pfn', 'aw_subscribe', 'promise_dtor', 'env_promise_fn', 'env_future_fn', 'promise_set_exc', 'spbool_dtor', 'fut_wait', 'fut_force_wait', 'fut_sync', 'fut_force_sync', 'sp_star')
 def unit(name, alias, uses=(), extra_types=None, extra_roots=(), extra_boundary=(), extra_globals=None, **kw):
     """alias: function under contract (enforced on its real body). uses: further aliases the unit needs; abstract callees (model /
     environment stubs) go to names_opt, so that a code change that stops calling one fails a postcondition, not the extraction."""
@@ -93,9 +97,28 @@ UNITS = [
     unit('value', 'sf_value', uses=('sp_arrow',), extra_types=ACCESS_T,
          extra_globals={'TI_NOT_READY': '_ZTIN5cocls25value_not_ready_exceptionE', 'TI_CANCELED': '_ZTIN5cocls24await_canceled_exceptionE'}),
     unit('wait', 'sf_wait', uses=('sp_arrow', 'fut_wait'), extra_types=ACCESS_T, extra_boundary=[N['fut_wait']]),
+    # (W2) the remaining blocking forwarders and the conversion to the underlying future
+    unit('force_wait', 'sf_force_wait', uses=('sp_arrow', 'fut_force_wait'), extra_types=ACCESS_T, extra_boundary=[N['fut_force_wait']]),
+    unit('join', 'sf_join', uses=('sp_arrow', 'fut_wait'), extra_types=ACCESS_T, extra_boundary=[N['fut_wait']]),
+    unit('sync', 'sf_sync', uses=('sp_arrow', 'fut_sync'), extra_types=ACCESS_T, extra_boundary=[N['fut_sync']]),
+    unit('force_sync', 'sf_force_sync', uses=('sp_arrow', 'fut_force_sync'), extra_types=ACCESS_T, extra_boundary=[N['fut_force_sync']]),
+    unit('as_future', 'sf_as_future', uses=('sp_star',), extra_types=ACCESS_T),
+    unit('set_exception', 'sf_set_exception', uses=('tr_invoke', 'aw_subscribe', 'sp_arrow', 'sp_make_default', 'fi_ctor_default', 'promise_set_exc', 'spbool_dtor'),
+         extra_types=dict(ACCESS_T, SPBOOL='cocls::suspend_point<bool>', EXCPTR='std::__exception_ptr::exception_ptr', **MAKE_T),
+         extra_roots=[N['fi_ctor_default']], extra_boundary=[N['promise_set_exc'], N['spbool_dtor']]),
+    unit('set_value', 'sf_set_value', uses=('tr_invoke', 'aw_subscribe', 'sp_arrow', 'sp_make_default', 'fi_ctor_default', 'promise_set_exc', 'spbool_dtor'),
+         extra_types=dict(ACCESS_T, SPBOOL='cocls::suspend_point<bool>', EXCPTR='std::__exception_ptr::exception_ptr', **MAKE_T),
+         extra_roots=[N['fi_ctor_default']], extra_boundary=[N['promise_set_exc'], N['spbool_dtor']]),
     unit('co_await', 'sf_co_await', uses=('sp_arrow',), extra_types=dict(ACCESS_T, COAW='cocls::co_awaiter<cocls::future<int> >')),
 ]
 
+# ---- observation unit, opt-in (see sf_spec.h: operator<< on an empty handle is NOT a documented initialisation route; this states the hypothetical clause)
+import os as _os17b
+if _os17b.environ.get('C17_SHIFT_ON_EMPTY') == '1':
+    UNITS.append(unit('shift_on_empty', 'sf_shift', uses=('tr_invoke', 'aw_subscribe', 'sp_arrow', 'sp_make_default', 'fi_ctor_default', 'env_future_fn', 'promise_set_exc', 'spbool_dtor'),
+         extra_types=dict(ACCESS_T, FFN='c17_future_fn', SPBOOL='cocls::suspend_point<bool>', EXCPTR='std::__exception_ptr::exception_ptr', **MAKE_T),
+         extra_roots=[N['fi_ctor_default']], extra_boundary=[N['promise_set_exc'], N['spbool_dtor']], defines=DEFINES + ['SHIFT_ON_EMPTY 1'],
+         replay=dict(src='c17_shift_on_empty.cpp', mode='shift_on_empty', flags=['-DNDEBUG', '-g'])))
 # ---- reference lemma over the contracts (unbounded history; loop invariant)
 # ---- native replay of the init_if_needed defect (replay/c17_default_get_promise.cpp, see tools/README.md)
 RP_FLAGS = ['-fsanitize=address', '-g']
@@ -229,8 +252,8 @@ UNITS += _c01_17(['move_assign', 'dtor']) + _c02_17(['fu_resolve'])
 
 META = dict(
     level='proof',
-    level_text=('Every member of shared_future<int> named by the property (default constructor, the two function-taking constructors, init_if_needed, get_promise, operator<<, ready, value, '
-                'wait, operator co_await, copy constructor, copy assignment, destructor) and the resolve tracer (resolve_cb::charge and its resume lambda) is verified against a contract '
+    level_text=('Every member of shared_future<int> (default constructor, the two function-taking constructors, init_if_needed, get_promise, operator<<, ready, value, '
+                'wait, force_wait, join, sync, force_sync, operator future<int>&, set_value, set_exception, operator co_await, copy constructor, copy assignment, destructor) and the resolve tracer (resolve_cb::charge and its resume lambda) is verified against a contract '
                 'on its real translated body, for every strong count < 2^30 and every state of the future (initialised / pending / ready with or without value), with std::shared_ptr '
                 'modelled as an explicit control block whose drop-to-zero runs the real ~future_internal and frees the block (CBMC use-after-free / double-free checks on). Contract '
                 'clauses: charge takes exactly one strong reference iff the tracer gets subscribed (future pending at that instant) and installs the reference-dropping lambda; the lambda '
@@ -241,6 +264,10 @@ META = dict(
                 'exception_ptr is released exactly once, by whoever destroys the state). operator<<(fn) (added after an independent audit, clause restated from the property: alive while '
                 'pending) re-targets the state of a non-empty, not pending handle and must leave the tracer charged iff the new operation is pending. get_promise on an initialised handle '
                 'is verified in two cases: nobody awaits yet, and ONE awaiter already accepted through a copy (it must still be subscribed afterwards). '
+                'Added: the remaining blocking members wait() / force_wait() / join() / sync() / force_sync() are verified as forwarders onto the member of the same name of the ONE future of the shared state (whichever copy '
+                'blocks, it blocks on that future; wait / force_wait hand out the value object stored there - the lvalue value() returns for every copy; join = wait with the result dropped; no reference taken or dropped); '
+                'operator future<int>&() returns that future; the static factories set_value(v) / set_exception(e) run their REAL bodies (lambda, future::result_of, future::set_value / set_exception, the function-taking '
+                'constructor) and yield a handle on a new, already resolved state (one allocation, strong == 1, tracer not charged) holding v / THE exception object handed in, of which the state owns exactly one reference. '
                 'Every contract keeps the state invariant "tracer holds its self-reference <=> future pending". A reference lemma over '
                 'exactly these reference-count clauses (shared macros), with a loop invariant for an UNBOUNDED history of copies, drops and the resolution, proves: the state is alive '
                 'while pending even with no handle left, it is released exactly once after the last of {handles, tracer} lets go, never twice, never leaked. '
@@ -254,8 +281,12 @@ META = dict(
                 'once), (iii) the invariant proved here; it is argued, not machine-checked. T = int only: destruction of the stored value is observed as "the real ~future_internal ran '
                 'exactly once", not with an instance-counting T (the native replays use one); the reference state (T&) of the future is not reachable for T = int. The "any ordering" clause is proved '
                 'on the level of the reference-count clauses (lemma) and cross-checked by executing a bounded set of orders, not proved on the real bodies for unbounded histories. '
-                'awaiter::subscribe_check_ready and (in contract units) promise destruction / the user functions are abstract callees. shared_future::force_wait/join/sync/force_sync, '
-                'set_value/set_exception and the conversion operator Base& are not covered. History: init_if_needed had an inverted test (fixed in /repo 07e3080, specs/C17/fix_init.diff). '
+                'awaiter::subscribe_check_ready and (in contract units) promise destruction / the user functions are abstract callees; future<int>::wait / force_wait / sync / force_sync are recording stubs in the forwarder units '
+                '(their blocking behaviour: C02 units co_sync / co_await_suspend, re-run here). set_value is instantiated for one int& argument. '
+                'OBSERVATION (not a finding): operator<< - like wait / sync / join / force_* / co_await / operator Base& - dereferences _ptr without a check, so on a DEFAULT-CONSTRUCTED handle it is a null dereference (natively SIGSEGV: '
+                'replay/c17_shift_on_empty.cpp). The header does not document operator<< as an initialisation route (default constructor: "If you need to initialize the object, call init_if_needed() or get_promise()"; operator<<: "same as result_of"), '
+                'and the property names get_promise() only - hence "non-empty" stays a documented precondition of unit shift. The opt-in unit shift_on_empty (C17_SHIFT_ON_EMPTY=1) states the hypothetical clause "operator<< initialises an empty handle": '
+                'fails on the unchanged tree with the model obligation "operator->() on an empty std::shared_ptr", holds with the hardening specs/C17/fix_shift_on_empty.diff (init_if_needed() first; unit shift still holds). History: init_if_needed had an inverted test (fixed in /repo 07e3080, specs/C17/fix_init.diff). '
                 'Found by an independent audit (group E) and now detected: (D1) operator<< never charged the resolve tracer - state freed while pending, use-after-free at resolution '
                 '(units shift, drive_shift_DD_RV; replay/c17_shift_no_tracer.cpp; candidate fix specs/C17/fix_shift_tracer.diff); (D2) an awaiter accepted through a copy after '
                 'init_if_needed() but before get_promise() is dropped by future::get_promise (exchange(nullptr)) and never resumed - judged in scope of "every awaiter of any copy is '
@@ -267,7 +298,7 @@ META = dict(
     trusted_base=['model: std::__shared_count<_S_atomic> as an explicit control block, drop-to-zero runs the real translated ~future_internal once and frees the block; make_shared = one allocation + the real constructor; '
                   'operator-> on an empty shared_ptr is an obligation and ends the path (lib/model_sharedptr_cb.c); std::shared_ptr / __shared_ptr wrappers themselves are translated from libstdc++',
                   'abstract callee: awaiter::subscribe_check_ready in its sequential reading - refused iff the slot holds the ready marker, otherwise pushed (specs/C17/sf_spec.h; concurrent behaviour is C02/C03)',
-                  'abstract callees in contract units: promise<int>::~promise (breaks an owned promise of a future nobody awaits), the user functors c17_promise_fn / c17_future_fn (keep / resolve / drop; never throw), future<int>::wait() as a recording stub',
+                  'abstract callees in contract units: promise<int>::~promise (breaks an owned promise of a future nobody awaits), the user functors c17_promise_fn / c17_future_fn (keep / resolve / drop; never throw), future<int>::wait() / force_wait() / sync() / force_sync() as recording stubs',
                   'drive only: suspend_point::operator<< / suspend_now replaced by stubs that assert they only ever see empty suspend points'],
     assumptions=['strong count < 2^30 (no counter overflow)', 'single thread; atomic reference counting of std::shared_ptr is libstdc++\'s responsibility',
                  'the function passed to a constructor does not throw (future::result_of catch branch is an explicit "not covered" obligation that is unreachable)',
